@@ -319,6 +319,8 @@ class FunctionAnalysis(ast.NodeVisitor):
                 self.site(node, 'stable-sort-with-key-over-hash-ordered-collection (ties)')
             if isinstance(f, ast.Attribute) and f.attr == 'join' and node.args and self.unordered(node.args[0]):
                 self.site(node, 'join-of-hash-ordered-collection')
+            if self._is_output_call(node) and any(self.unordered(a) for a in node.args):
+                self.site(node, 'output-of-hash-ordered-value')
         elif isinstance(node, ast.For) and self.unordered(node.iter):
             for sub in ast.walk(ast.Module(body=node.body, type_ignores=[])):
                 if isinstance(sub, (ast.Return, ast.Break)):
@@ -327,9 +329,23 @@ class FunctionAnalysis(ast.NodeVisitor):
                 if isinstance(sub, (ast.Yield, ast.YieldFrom)):
                     self.site(node, 'loop-over-hash-ordered-collection-yields')
                     break
+                if isinstance(sub, ast.Call) and self._is_output_call(sub):
+                    self.site(node, 'loop-over-hash-ordered-collection-writes-output')
+                    break
         elif isinstance(node, ast.Assign) and isinstance(node.targets[0], (ast.Tuple, ast.List)) and \
                 self.unordered(node.value):
             self.site(node, 'unpacking-of-hash-ordered-collection')
+
+    @staticmethod
+    def _is_output_call(node) -> bool:
+        # what a process prints or writes: print(...), json.dump(s)(...), <file>.write / writelines(...)
+        f = node.func
+        if isinstance(f, ast.Name) and f.id == 'print':
+            return True
+        if isinstance(f, ast.Attribute) and f.attr in ('dump', 'dumps') and isinstance(f.value, ast.Name) and \
+                f.value.id == 'json':
+            return True
+        return isinstance(f, ast.Attribute) and f.attr in ('write', 'writelines')
 
     def _is_key_lookup(self, node) -> bool:
         # d[key] on a tainted *dict* is a look-up by key, not by position: only constant integer indices count
